@@ -23,12 +23,33 @@ def check(run):
     run.validate('Rec_C11', recfam.rec_cfg('Rec_C11', INV), traces, 'rec', parallel=8, timeout=3000)
     # conformance of the real validator with the model of the validator: drift, not a verdict
     import os
+    import json
     for t in traces[:4]:
         rc, out = run.tlc('Rec_C11', recfam.rec_cfg('Rec_C11', CONF), 'conf_' + os.path.basename(t), workers=1, env=dict(VERIF_TRACE=t))
         if vlib.parse_violation(out):
             run.cov['drift'].append(dict(trace=os.path.basename(t), note='the real validator accepts/rejects differently from Config!Validate',
                                          line=vlib.last_l(out)))
             vlib.log('[DRIFT] validator differs from the model Config!Validate in %s' % os.path.basename(t))
+    # process level: `fan2go config validate` and the real daemon, as child processes, on generated configurations
+    ptr = run.drive('TestDriveC11Proc', run.pick(1, 4), lambda i: dict(VERIF_SEED=run.seed * 100 + i, VERIF_N=run.pick(30, 150), VERIF_PAR=run.pick(8, 4)),
+                    'c11proc', timeout=3000)
+    run.validate('Rec_C11', recfam.rec_cfg('Rec_C11', ['C11_ValidatedStarts']), ptr, 'rec_proc', parallel=4, timeout=600)
+    pn = pacc = 0
+    for t in ptr:
+        with open(t) as f:
+            for ln in f:
+                e = json.loads(ln)
+                if e['ev'] == 'Proc':
+                    pn += 1
+                    pacc += 1 if e['cli'] == 0 else 0
+        rc, out = run.tlc('Rec_C11', recfam.rec_cfg('Rec_C11', ['G11_CliConformsValidator', 'G11_RejectedRefused']), 'conf_' + os.path.basename(t),
+                          workers=1, env=dict(VERIF_TRACE=t))
+        if vlib.parse_violation(out):
+            run.cov['drift'].append(dict(trace=os.path.basename(t), note='process level: %s' % vlib.parse_violation(out), line=vlib.last_l(out)))
+            vlib.log('[DRIFT] process level: %s in %s' % (vlib.parse_violation(out), os.path.basename(t)))
+    if not run.violations and (pacc < 4 or pn - pacc < 4):
+        raise vlib.Infra('vacuous: %d configurations at process level, %d accepted by `config validate`' % (pn, pacc))
+    run.cov['process_level'] = dict(configurations=pn, accepted_by_config_validate=pacc)
     # growth beyond the listed property (never a verdict): start-up code of internal/backend.go against Backend.tla -
     # control-algorithm selection for every spelling (incl. the `controlAlgorithm: {}` nil loop) and sensor seeding
     btr = run.drive('TestDriveBackend', 1, lambda i: dict(VERIF_SEED=run.seed), 'backend')
@@ -38,7 +59,6 @@ def check(run):
     if not run.cov['growth_backend']['accepted']:
         run.cov['drift'].append(dict(trace='backend', note='start-up behaviour differs from Backend.tla: %s' % vlib.parse_violation(out)))
         vlib.log('[DRIFT] start-up (algorithm selection / sensor seeding) differs from Backend.tla: %s' % vlib.parse_violation(out))
-    import json
     n = acc = cyc = doc = 0
     for t in traces:
         with open(t) as f:
@@ -61,7 +81,8 @@ def check(run):
                       'deprecated controlLoop, hwmon index / rpmChannel / pwmChannel forms) rendered to YAML and taken through the real '
                       'loader + validator; accepted ones are instantiated (InitializeObjects on a fake hwmon tree) and every curve is '
                       'evaluated for 6 sensor vectors in a child process (crash / hang = observation); one third is assembled from '
-                      'documented forms only; non-trivial = configurations',
+                      'documented forms only; a further sample goes through the real command `fan2go config validate` and the real daemon '
+                      '(child processes; validated => every fan controller starts and the process lives on); non-trivial = configurations',
                       dict(evaluations=n, distinct_nontrivial=n, configurations=n, accepted=acc, documented_only=doc),
                       ['the abstract record logged with each YAML document is what TLC judges (ids, backend counts, references, members, step counts)',
                        'control-loop construction is outside the property (only sensors, curves and fans are instantiated)'])
